@@ -230,8 +230,9 @@ import (
 // H holds the hooks of the controlled scheduler. nil = pass through to the real primitives.
 type H struct {
 	Point  func(kind string)
-	Lock   func(m *Mutex)
-	Unlock func(m *Mutex)
+	Lock    func(m *Mutex)
+	Unlock  func(m *Mutex)
+	TryLock func(m *Mutex) bool
 }
 
 var Hooks *H
@@ -256,6 +257,13 @@ func (m *Mutex) Unlock() {
 		return
 	}
 	m.real.Unlock()
+}
+
+func (m *Mutex) TryLock() bool {
+	if h := Hooks; h != nil && h.TryLock != nil {
+		return h.TryLock(m)
+	}
+	return m.real.TryLock()
 }
 
 func Point(kind string) {
